@@ -1,12 +1,18 @@
 import Driver.Proto
 import Model.QuadTree
+import Model.QuadTreeI64
 open Proto Geom QT
 
-/-! Model driver of C07.  A history starts with `reset i|f <Threshold>`; coordinates are decimal ints (`i`) or exact
-    rationals `n/d` (`f`).  Mutations answer `n=<Size> all=<sorted ids>`; `probe` answers the sixteen queries. -/
+/-! Model driver of C07.  A history starts with `reset i|f|w <Threshold>`; coordinates are decimal ints (`i`: unbounded
+    `Int`; `w`: machine `Int64`, wrapping like Go's `int`), exact rationals `n/d` (`f`) or IEEE bit patterns in hex (`d`:
+    `Float`, rounding like Go's `float64`).  Mutations answer `n=<Size> all=<sorted ids>`; `probe` answers the sixteen queries. -/
 namespace DrvC07
 
-def fuel : Nat := 200
+/-- fuel of the exact and integer histories (`i`, `f`, `w`) -/
+def fuel200 : Nat := 200
+/-- fuel of the IEEE-double histories (`d`): halving a double reaches 0 only after about 2100 steps (from 1e308 down
+    through the subnormals), and Go does recurse that deep on more than `Threshold` coinciding tiny rectangles -/
+def fuelF64 : Nat := 2300
 
 def parseRat? (s : String) : Option Rat :=
   match s.splitOn "/" with
@@ -28,13 +34,13 @@ def idsStr {R : Type} (l : List (Item R)) : String :=
 def boolStr (b : Bool) : String := if b then "T" else "F"
 
 section Generic
-variable {α : Type} [RectOps (Rect α) (Point α)] [DecidableEq α]
+variable {α : Type} [RectOps (Rect α) (Point α)] (fuel : Nat) (eqv : α → α → Bool)
 
 /-- the package's contract (`QT.OpOKI`): an object of which an entry is stored still has the bounds it was stored with.
     Generated histories respect it; a history cut down by the minimiser may not, then the line is skipped on both
     sides. -/
 def contractOK (t : Tree (Rect α)) (id : Nat) (r : Rect α) : Bool :=
-  t.all.all (fun x => !(x.id == id) || (decide (x.rect.x = r.x) && decide (x.rect.y = r.y) && decide (x.rect.w = r.w) && decide (x.rect.h = r.h)))
+  t.all.all (fun x => !(x.id == id) || (eqv x.rect.x r.x && eqv x.rect.y r.y && eqv x.rect.w r.w && eqv x.rect.h r.h))
 
 def stateStr (t : Tree (Rect α)) : String :=
   if t.fuelOK fuel then "n=" ++ toString t.size ++ " all=" ++ idsStr t.all else "out-of-fuel"
@@ -57,25 +63,25 @@ def stepT (num? : String → Option α) (t : Tree (Rect α)) (ws : List String) 
   | ["ins", id, x, y, w, h] =>
     match id.toNat?, num? x, num? y, num? w, num? h with
     | some id, some x, some y, some w, some h =>
-      if !contractOK t id ⟨x, y, w, h⟩ then (t, "contract") else
+      if !contractOK eqv t id ⟨x, y, w, h⟩ then (t, "contract") else
       let t' := t.insert fuel ⟨id, ⟨x, y, w, h⟩⟩
-      (t', stateStr t')
+      (t', stateStr fuel t')
     | _, _, _, _, _ => (t, "bad-op")
   | ["rm", id, x, y, w, h] =>
     match id.toNat?, num? x, num? y, num? w, num? h with
     | some id, some x, some y, some w, some h =>
-      if !contractOK t id ⟨x, y, w, h⟩ then (t, "contract") else
+      if !contractOK eqv t id ⟨x, y, w, h⟩ then (t, "contract") else
       let t' := t.remove id ⟨x, y, w, h⟩
-      (t', stateStr t')
+      (t', stateStr fuel t')
     | _, _, _, _, _ => (t, "bad-op")
-  | ["reorg"] => let t' := t.reorganize fuel; (t', stateStr t')
-  | ["state"] => (t, stateStr t)
+  | ["reorg"] => let t' := t.reorganize fuel; (t', stateStr fuel t')
+  | ["state"] => (t, stateStr fuel t)
   -- a query with a panicking / inconsistent matcher: queries do not change the tree, whatever the matcher does
   | "pprobe" :: _ => (t, "done")
-  | ["clear"] => let t' := t.clear; (t', stateStr t')
+  | ["clear"] => let t' := t.clear; (t', stateStr fuel t')
   | ["thr", k] =>
     match k.toInt? with
-    | some k => let t' := { t with threshold := k }; (t', stateStr t')
+    | some k => let t' := { t with threshold := k }; (t', stateStr fuel t')
     | none => (t, "bad-op")
   | ["probe", px, py, qx, qy, qw, qh, md, rm] =>
     match num? px, num? py, num? qx, num? qy, num? qw, num? qh, md.toNat?, rm.toNat? with
@@ -89,6 +95,18 @@ inductive St where
   | none
   | i (t : Tree (Rect Int))
   | f (t : Tree (Rect Rat))
+  | w (t : Tree (Rect Int64))
+  | d (t : Tree (Rect Float))
+
+/-- a `float64` as the 16 hex digits of its IEEE bit pattern -/
+def parseF64? (s : String) : Option Float :=
+  if s.length ≠ 16 then none else (hexToNat? s).map (fun n => Float.ofBits n.toUInt64)
+
+/-- a decimal within the range of Go's `int` -/
+def parseI64? (s : String) : Option Int64 :=
+  match s.toInt? with
+  | some i => if -9223372036854775808 ≤ i ∧ i ≤ 9223372036854775807 then some (Int64.ofInt i) else none
+  | none => none
 
 def step (s : St) (line : String) : St × String :=
   match words line with
@@ -98,11 +116,19 @@ def step (s : St) (line : String) : St × String :=
   | ["reset", "f", k] => match k.toInt? with
     | some k => (.f (Tree.empty k), "ok")
     | none => (s, "bad-op")
+  | ["reset", "d", k] => match k.toInt? with
+    | some k => (.d (Tree.empty k), "ok")
+    | none => (s, "bad-op")
+  | ["reset", "w", k] => match k.toInt? with
+    | some k => (.w (Tree.empty k), "ok")
+    | none => (s, "bad-op")
   | ws =>
     match s with
     | .none => (s, "bad-op")
-    | .i t => let (t', o) := stepT String.toInt? t ws; (.i t', o)
-    | .f t => let (t', o) := stepT parseRat? t ws; (.f t', o)
+    | .i t => let (t', o) := stepT fuel200 (fun a b => decide (a = b)) String.toInt? t ws; (.i t', o)
+    | .f t => let (t', o) := stepT fuel200 (fun a b => decide (a = b)) parseRat? t ws; (.f t', o)
+    | .w t => let (t', o) := stepT fuel200 (fun a b => decide (a = b)) parseI64? t ws; (.w t', o)
+    | .d t => let (t', o) := stepT fuelF64 (fun a b => a.toBits == b.toBits) parseF64? t ws; (.d t', o)
 
 end DrvC07
 
